@@ -73,6 +73,14 @@ theorem G3 (R : T → T → Prop) (hac : Acyclic R) (a x : T) (h : R a x) : ¬ T
   intro hx
   exact hac a (TransGen.head h hx)
 
+/-- G4: every path has a last step (skolemised as `lastp` in DEP_AX). -/
+theorem G4 (R : T → T → Prop) (a x : T) (h : TransGen R a x) : ∃ p, R p x ∧ (a = p ∨ TransGen R a p) := by
+  rcases TransGen.tail'_iff.mp h with ⟨p, hap, hpx⟩
+  refine ⟨p, hpx, ?_⟩
+  rcases Relation.reflTransGen_iff_eq_or_transGen.mp hap with h1 | h1
+  · exact Or.inl h1.symm
+  · exact Or.inr h1
+
 /-! ## Forests given by a parent map (lemmas D1–D5) -/
 
 def E (par : T → Option T) (a x : T) : Prop := par x = some a
